@@ -20,30 +20,39 @@ from gen import c02_gen as g
 
 CLAIMED = True
 LEVEL = "proof"
-TECHNIQUE = ("Lean 4 proofs over a hand model of the XPath compiler's operator layers, of XObject comparison and of the "
-             "operator-fragment evaluator (op-code table regenerated from the source by a translator) + correspondence run "
-             "of the real XPathProcessorImpl/XPath::execute against the compiled Lean model and an independent reference")
-LEVEL_TEXT = ("Machine-checked: (1) for every well-formed expression tree of the operator fragment, the model of "
-              "OrExpr..UnaryExpr/UnionExpr/PrimaryExpr with insertOpCode/updateOpCodeLength/updateShiftedOpCodeLength "
-              "emits exactly the prefix encoding of the left-associated tree with XPath precedence, and the encoding is "
-              "injective; (2) the six XObject comparison methods equal XPath 3.4 on all type pairs for distinct "
-              "objects, with kernel-checked counterexamples for the identity shortcuts; (3) the model evaluator of the "
-              "operator fragment equals the denotational specification. The model is tied to the working tree by the "
-              "op-code translator and by replaying generated expressions, token soups, comparisons and evaluations on "
-              "the real library and on the compiled model.")
-LEVEL_NOTE = ("Trusted: Lean kernel; axioms propext/Classical.choice/Quot.sound only; hand transcription of the anchored "
-              "C++ (checked by the correspondence run, bounded by generator coverage); token payloads (queue positions) "
-              "computed by the driver's annotator; IEEE arithmetic and string<->number conversion are abstract parameters "
-              "of the theorems (Lean Float / a decimal parser in the driver). Not modelled: axes other than child, "
-              "predicates, the function library, extension functions (correspondence none) — see design/C02.md.")
+TECHNIQUE = ("Lean 4 proofs over hand models of the XPath compiler (op map primitives + recursive descent), of XObject comparison and "
+             "of location-step evaluation (find* walks, predicate loop), with op-code table and seven structural flags regenerated "
+             "from the source by translators, + correspondence run of the real XPathProcessorImpl / XPath::execute / XObject "
+             "methods against the compiled Lean model and, independently, against a denotational Lean specification")
+LEVEL_TEXT = ("Machine-checked: (1) compile_encodes_partial: for every well-formed expression tree of the operator fragment (four "
+              "binary layers, unary minus, groups, and/or, atoms) the model of initXPath..PrimaryExpr with insertOpCode/"
+              "updateOpCodeLength/updateShiftedOpCodeLength emits exactly the prefix encoding of the left-associated, "
+              "precedence-respecting tree; (2) compare_spec_partial: the six XObject comparison methods equal XPath 3.4 on all "
+              "type pairs for distinct objects; (3) axes_spec_partial: on every document table satisfying the decidable "
+              "well-formedness predicate, each find* walk/chain of XPath.cpp returns exactly the nodes of its axis in proximity "
+              "order (13 axes); predicates_spec_partial / predicates_literal_spec: the predicate loop and the numeric-literal "
+              "shortcut equal XPath 2.4 filtering. The models are tied to the working tree by two translators and by replaying "
+              "generated expressions, token soups, comparisons and evaluations on generated documents on the real library and on "
+              "the compiled model; every implementation reply is also compared with the denotational specification evalS.")
+LEVEL_NOTE = ("Trusted: Lean kernel; axioms propext/Classical.choice/Quot.sound only; the hand transcription of the anchored C++ "
+              "(checked by the correspondence run, bounded by generator coverage); token payloads computed by the driver's "
+              "annotator; IEEE arithmetic = Lean Float (hardware) with exact decimal->double and exact fmod written in Lean; "
+              "NumOps is abstract in the comparison theorem. Partial: Doc.WF is evaluated per document (not proved for every "
+              "pre-order table); the compiler theorem does not cover unions, multi-step paths, predicates and function calls; the "
+              "evaluator as a whole (evalM = evalS) is not a theorem - its axis and predicate components are; the function library "
+              "and EXSLT set functions are specified and tied by correspondence only; id(), the namespace axis with real namespace "
+              "nodes, xalan:evaluate, EXSLT math/string/common/dynamic, number->string of non-integers and result tree fragments "
+              "are not modelled (design/C02.md section 7).")
 DESIGN_REF = "DESIGN.md section 5, C02; design/C02.md"
 
 THEOREMS = [
     "XalanModel.Props.C02.binLevel_leftAssoc_partial",
     "XalanModel.Props.C02.enc_leftNested",
     "XalanModel.Props.C02.mulExpr_atoms_leftAssoc_partial",
+    "XalanModel.Props.C02.compile_encodes_partial",
     "XalanModel.Props.C02.unary_minus_counterexample",
     "XalanModel.Props.C02.accepts_nonexpr_counterexample",
+    "XalanModel.Props.C02.split_operator_counterexample",
     "XalanModel.Props.C02.compare_spec_partial",
     "XalanModel.Props.C02.compare_identity_le_counterexample",
     "XalanModel.Props.C02.compare_identity_ge_counterexample",
@@ -401,6 +410,10 @@ def compare_stream(ctx, r, harness, model, work):
 # evaluation: location paths over all axes, predicates, unions, functions, arithmetic
 
 EVAL_CORPUS = [
+    "(//a | //b)[last()]/preceding-sibling::*[1]", "(preceding::*)[1]", "(ancestor::* | preceding::*)[2]", "(//*/ancestor::*)[last()]",
+    "(//c/preceding::* | //e)[position() < 3]/following::*[1]", "$na[2]/preceding::*[1]", "($na | $nb)[last()]/ancestor::*[1]",
+    "$vt and $vn > 2", "$vs + $vn", "$vnan = $vnan", "$vbig > 9223372036854775807", "concat($vw, $ve, $vs)", "$vf or $na",
+    "//*[$vn > position()]", "//*[position() = $vn - 0.5]", "string-length($ve) = 0", "$vs = 12", "$vt = $na", "$vw < $vs",
     "number('9223372036854775808') > 0", "9999999999999999999 > 0", "number('9999999999999999999')", "9223372036854775807 + 1",
     "number('-9223372036854775809')", "18446744073709551616 div 2", "'9223372036854775808' > '9223372036854775807'",
     "number(' 1234567890123456789.5 ')", "0.30000000000000004 = 0.1 + 0.2", "number('0000000000000000000000001')",
@@ -464,6 +477,15 @@ def eval_session_lines(xml, table, exprs_ctx):
     lines = ["doc %s %s" % (hx(xml), g.table_text(table))]
     for nm, ex in (("na", "//a"), ("nb", "//b[1] | //c"), ("nz", "//zz")):
         lines.append("var %s x %s" % (nm, hx(ex)))
+    # variables of every other type (bound to the same objects on both sides)
+    lines.append("var vt b 1")
+    lines.append("var vf b 0")
+    lines.append("var vn n 4004000000000000")          # 2.5
+    lines.append("var vnan n 7ff8000000000000")
+    lines.append("var vbig n 43e0000000000000")         # 2^63
+    lines.append("var vs s %s" % hx(" 12 "))
+    lines.append("var ve s -")
+    lines.append("var vw s %s" % hx("x y"))
     for text, c in exprs_ctx:
         lines.append("eval %d %s" % (c, hx(text)))
     return lines
